@@ -212,13 +212,13 @@ def run(ctx):
         ctx.merge_shard(res)
         return
     nshards = 16
-    n_scripts = ctx.scale(40, 400)
+    n_scripts = ctx.scale(200, 800)
     length = ctx.scale(80, 250)
     run_shards(ctx, shard, [(pid, ctx.tier, ctx.seed, i, n_scripts, length) for i in range(nshards)])
     if pid == "C14":
         # naming half: histories over colliding names / identifiers under both policies (shared with C10);
         # P = identity-level data + table-derived lookup answers unchanged around every refused call
         from engines import irnames
-        run_shards(ctx, irnames.shard, [("C14", ctx.tier, ctx.seed, i, ctx.scale(12, 100), ctx.scale(50, 90), True) for i in range(nshards)])
+        run_shards(ctx, irnames.shard, [("C14", ctx.tier, ctx.seed, i, ctx.scale(40, 150), ctx.scale(50, 90), True) for i in range(nshards)])
     if ctx.tier == "thorough":
         lean.leanchecker(ctx, MODULES[pid])
